@@ -1540,7 +1540,8 @@ func (pc *PartitionContext) removeAllocation(release *si.AllocationRelease) ([]*
 				zap.String("nodeID", alloc.GetNodeID()))
 			continue
 		}
-		if release.TerminationType == si.TerminationType_PLACEHOLDER_REPLACED {
+		// a placeholder without a linked real allocation (replacement reversed in the mean time) is a plain removal
+		if release.TerminationType == si.TerminationType_PLACEHOLDER_REPLACED && alloc.GetRelease() != nil {
 			confirmed = alloc.GetRelease()
 			// we need to check the resources equality
 			delta := resources.Sub(confirmed.GetAllocatedResource(), alloc.GetAllocatedResource())
